@@ -1,8 +1,10 @@
 package main
 
 import (
+	"bytes"
 	"fmt"
 	"io"
+	"strings"
 )
 
 func init() { corrFuncs["C18"] = corrC18 }
@@ -70,6 +72,24 @@ func c18Case(c *corrCtx, class, ld string, prefix []byte, needed int, tail int64
 		if cut != meta {
 			c.direct(fmt.Sprintf("C18/%s/%s/truncated", class, ld), "loading the file truncated after the last needed structure gives a different result",
 				map[string]interface{}{"loader": ld, "needed": needed, "full": meta, "truncated": cut, "prefix": hexs(trunc(prefix, 200))})
+		}
+		// ... and when the truncated file arrives through a reader whose type reveals how much is left (in-memory readers
+		// with Len(), seekable ones): knowing that the body is absent must not change what the header says
+		for _, ts := range []struct {
+			name string
+			mk   func(b []byte) io.Reader
+		}{
+			{"*bytes.Reader", func(b []byte) io.Reader { return bytes.NewReader(b) }},
+			{"*bytes.Buffer", func(b []byte) io.Reader { return bytes.NewBuffer(append([]byte{}, b...)) }},
+			{"*strings.Reader", func(b []byte) io.Reader { return strings.NewReader(string(b)) }},
+			{"*io.SectionReader", func(b []byte) io.Reader { return io.NewSectionReader(bytes.NewReader(b), 0, int64(len(b))) }},
+		} {
+			md, _, err, p := safeLoad(loaders[ld], ts.mk(prefix[:needed]))
+			if got := metaOut(md, err, p); got != meta {
+				c.direct(fmt.Sprintf("C18/%s/%s/truncated-typed/%s", class, ld, ts.name), "loading the file truncated after the last needed structure gives a different result when the source's type reveals its remaining size",
+					map[string]interface{}{"loader": ld, "source_type": ts.name, "needed": needed, "full": meta, "truncated": got, "prefix": hexs(trunc(prefix, 200))})
+				break
+			}
 		}
 		// ... also when the source hands over its last bytes together with io.EOF (whole, or in large pieces)
 		for _, sc := range [][]int{nil, {65536}, {4096}, {32768, 5000}} {
